@@ -495,3 +495,46 @@ def c_write_all(m, st, f, a):
     k = m.concretize(st, room, range(0, len(bs)))
     w.buf.extend(bs[:k]); w.failed = True
     return err(Opaque('io::Error', 'writer failed'))
+
+
+def hash_value(m, st, h, v):
+    """structural Hash (what #[derive(Hash)] / std impls feed into the hasher), recorded"""
+    v = sv(v)
+    if isinstance(v, StrV): h.log.append(('str', tuple(v.bytes())))
+    elif isinstance(v, RopeV): h.log.append(('str', tuple(v.bytes())))
+    elif isinstance(v, IntV): h.log.append((v.ty, v.e))
+    elif isinstance(v, (bool, z3.BoolRef)): h.log.append(('bool', v))
+    elif isinstance(v, Enum):
+        k = disc_of(m, st, v)
+        h.log.append(('disc', k))
+        p = v.payload.get(k)
+        if p is not None:
+            for x in p.f: hash_value(m, st, h, x)
+    elif isinstance(v, Agg):
+        if v.ty == 'Vec' or v.ty is None and False: h.log.append(('len', len(v.f)))
+        for x in v.f: hash_value(m, st, h, x)
+    elif isinstance(v, Unit): pass
+    else: raise Inconclusive('hash of %r' % (v,))
+
+
+@contract(r'^<(std::option::Option<.*>|Option<.*>|Vec<.*>|Arc<\[.*\]>|\[.*\]|\(.*\)|&\[.*\]) as Hash>::hash::<', 4)
+def c_hash_struct(m, st, f, a):
+    v = sv(a[0])
+    h = _hasher(a[1])
+    if isinstance(v, Agg) and (f.startswith('<Vec<') or f.startswith('<Arc<[') or f.startswith('<[') or f.startswith('<&[')): h.log.append(('len', len(v.f)))
+    hash_value(m, st, h, v); return UNIT
+
+
+@contract(r'^(std::mem|core::mem)::discriminant::<', 3)
+def c_mem_discriminant(m, st, f, a):
+    v = sv(a[0]); return IntV(disc_of(m, st, v), 'isize')
+
+
+@contract(r'^<(std::mem::)?Discriminant<.*> as Hash>::hash::<', 3)
+def c_hash_discriminant(m, st, f, a):
+    _hasher(a[1]).log.append(('disc', sv(a[0]).e)); return UNIT
+
+
+@contract(r'^<isize as Hash>::hash::<', 3)
+def c_hash_isize(m, st, f, a):
+    _hasher(a[1]).log.append(('isize', sv(a[0]).e)); return UNIT
